@@ -64,7 +64,7 @@ var c07StartOrder = []string{"empty", "full256", "almost-full", "ip-limit-minus-
 func c07Pool(start string, thorough bool) (recs, ids []string, kinds []string) {
 	recs = []string{"A.1.a", "A.2.a", "A.2.b", "B.1.a", "X.1.b", "C.1.d", "D.1.a", "D.2.l"}
 	ids = []string{"A", "B", "C", "D"}
-	kinds = []string{"alive", "dead", "newip", "newport"}
+	kinds = []string{"alive", "dead", "nofetch", "newip", "newport"}
 	if start == "ip-limit-minus-one" {
 		recs = []string{"A.1.a", "A.2.b", "H.1.b", "I.1.b", "I.1.l", "D.1.a", "C.1.d"}
 		ids = []string{"A", "H", "I", "G0"}
@@ -78,7 +78,7 @@ func c07Pool(start string, thorough bool) (recs, ids []string, kinds []string) {
 	}
 	if thorough {
 		recs = append(recs, "A.2.c", "B.2.d", "E.1.a")
-		kinds = []string{"alive", "dead", "newseq", "newip", "newsubnet", "newport", "lowerseq"}
+		kinds = []string{"alive", "dead", "nofetch", "newseq", "newip", "newsubnet", "newport", "lowerseq"}
 	}
 	return
 }
